@@ -86,9 +86,13 @@ try:
             channel,
             force_as,
             seed,
+            seed_offsets=None,
         ):
             super(_FeatureProcessorDataset, self).__init__()
             self.utt_path = tuple(utt2path.items())
+            if seed_offsets is None:
+                seed_offsets = range(len(self.utt_path))
+            self.seed_offsets = tuple(seed_offsets)
             self.preprocessors = preprocessors
             self.computer = computer
             self.postprocessors = postprocessors
@@ -101,7 +105,7 @@ try:
 
         @torch.no_grad()
         def __getitem__(self, idx):
-            torch.manual_seed(self.seed + idx)
+            torch.manual_seed(self.seed + self.seed_offsets[idx])
             utt_id, path = self.utt_path[idx]
             try:
                 signal = read_signal(
@@ -541,6 +545,8 @@ def signals_to_torch_feat_dir(args=None):
             )
             return 1
         utt2path[utt_id] = " ".join(ls[1:])
+    # an utterance is seeded by its position in the map, whatever the manifest skips
+    utt2offset = dict((utt_id, idx) for idx, utt_id in enumerate(utt2path))
     if options.manifest is not None:
         options.manifest.seek(0)
         for line in options.manifest:
@@ -594,6 +600,7 @@ def signals_to_torch_feat_dir(args=None):
         options.channel,
         options.force_as,
         seed,
+        [utt2offset[utt_id] for utt_id in utt2path],
     )
     loader = torch.utils.data.DataLoader(dataset, num_workers=options.num_workers)
     if not os.path.isdir(options.dir):
